@@ -137,7 +137,40 @@ const apiPkg = ledgerMod + "/internal/api"
 
 const lsPkg = ledgerMod + "/internal/storage/ledgerstore"
 
+func concCfg(quickP, thoroughP int, crash bool) func(tier string) interp.Config {
+	return func(tier string) interp.Config {
+		p := quickP
+		if tier == "thorough" {
+			p = thoroughP
+		}
+		return interp.Config{PanicIsViolation: true, MaxSteps: 5_000_000, Preemptions: p, SchedDecide: true, SelectDecide: true, Crash: crash}
+	}
+}
+
+var concStubs = []string{
+	"scheduling points: a Yield before every statement of commander.go, context.go, lock.go, reference.go, batcher.go, jobs.go, linked_list.go (overlay instrumentation); between two yields a thread runs atomically",
+	"all schedules with at most p pre-emptions (CHESS-style bound); switches forced by blocking are free and all explored; select among several ready cases is explored",
+	"helper goroutines without scheduling points (the VM's printer) run as soon as they can",
+	"sync.Mutex/WaitGroup/Map, atomic.Int64, context and channels are modelled by the engine with Go's blocking semantics",
+}
+
 var specs = map[string]*CheckSpec{
+	"C15": {
+		ID: "C15", Patterns: []string{cmdPkg}, Instrument: true,
+		Runs: []HarnessRun{{Pkg: cmdPkg, Dir: "internal/engine/command", Mod: "ledger", Fn: "ZZ_C15", Shapes: countShapes(cmdPkg, "ZZ_C15N"),
+			Cfg: concCfg(1, 2, false), Desc: harnessDesc(cmdPkg, "ZZ_C15Desc", "lock requests:"), CanaryShapes: []int{0, 5}}},
+		Bounds: func(tier string) map[string]any {
+			p := 1
+			if tier == "thorough" {
+				p = 2
+			}
+			return map[string]any{"requests": "14 populations of 2-3 requests with read/write sets over accounts {x,y}, optionally one request cancelled by a separate thread at an arbitrary moment", "preemptions": p, "threads": "one per request, one per cancellation, main"}
+		},
+		Assumptions: concStubs,
+		Encoded:     []string{"command.(*DefaultLocker).Lock", "command.(*lockIntent).tryLock/unlock", "collectionutils.(*LinkedList).Append/RemoveValue/RemoveFirst/FirstNode", "collectionutils.(*LinkedListNode).Remove/Next/Value"},
+		Rule:        "every schedule within the pre-emption bound; the inputs are schedules (decisions), the solver confirms feasibility; exclusion is checked when Lock returns, progress and no-leftover at quiescence",
+		MaxPaths:    func(tier string) int { return 2000000 },
+	},
 	"C20": {
 		ID: "C20", Patterns: []string{lsPkg},
 		Runs: []HarnessRun{{Pkg: lsPkg, Dir: "internal/storage/ledgerstore", Mod: "ledger", Fn: "ZZ_C20",
